@@ -87,6 +87,8 @@ class DetLoop(asyncio.BaseEventLoop):
         self.ties_broken = 0     # iteration boundaries at which >= 2 external instants tied
         self.on_quiescent = None  # optional hook: called when idle; may add events
         self.final_cleanup = None  # optional hook: called after the drain, before close
+        self.deadlocked = False
+        self.livelocked = False
 
     # -- clock -----------------------------------------------------------------
     def time(self):
@@ -149,6 +151,7 @@ class DetLoop(asyncio.BaseEventLoop):
                 self._stopping = True
                 return
             else:
+                self.deadlocked = True
                 raise Deadlock("event loop idle with unfinished work")
 
         n_due = 0
@@ -188,6 +191,7 @@ class DetLoop(asyncio.BaseEventLoop):
         if ran and self.iteration_cost:
             self._vtime += self.iteration_cost
         if self.callbacks_run > self.max_callbacks:
+            self.livelocked = True
             raise Livelock(f"more than {self.max_callbacks} callbacks")
 
     # -- post-mortem drain -------------------------------------------------------
